@@ -6,6 +6,10 @@ import Ruint.Model.Cmp
 import Ruint.Model.Mul
 import Ruint.Model.Shift
 import Ruint.Model.BitsRev
+import Ruint.Model.DivUint
+import Ruint.Model.ModularLimbs
+import Ruint.Model.Gcd
+import Ruint.Model.Pow
 /-!
 # Histories of safe operations over a register file (C04 closure)
 
@@ -47,6 +51,9 @@ inductive Op where
   | wshl (d a s : Nat) | wshr (d a s : Nat) | rotl (d a s : Nat) | rotr (d a s : Nat) | ashr (d a s : Nat)
   | not (d a : Nat) | and (d a b : Nat) | or (d a b : Nat) | xor (d a b : Nat)
   | setbit (d a i : Nat) (v : Bool) | revbits (d a : Nat)
+  -- producers owned by C03 / C10 / C12 / C13 / C06 (their own models; closure from their own theorems)
+  | div (d a b : Nat) | rem (d a b : Nat) | gcd (d a b : Nat)
+  | addmod (d a b m : Nat) | mulmod (d a b m : Nat) | wpow (d a e : Nat) | npow2 (d a : Nat)
   deriving Repr
 
 def resOk : Canon.Res → Option (List Nat)
@@ -98,6 +105,21 @@ def eval (bits : Nat) (regs : Regs) : Op → Option (Nat × List Nat)
   | .xor d a b => some (d, Bits.bitXor (rd bits regs a) (rd bits regs b))
   | .setbit d a i v => some (d, Bits.setBit bits (rd bits regs a) i v)
   | .revbits d a => some (d, Bits.reverseBits bits (rd bits regs a))
+  -- `if rhs.is_zero() { lhs } else { lhs / rhs }` (the history harness never divides by zero)
+  | .div d a b =>
+      if DivU.isZero (rd bits regs b) then some (d, rd bits regs a)
+      else (DivU.wrappingDiv bits (rd bits regs a) (rd bits regs b)).map (d, ·)
+  | .rem d a b =>
+      if DivU.isZero (rd bits regs b) then some (d, rd bits regs a)
+      else (DivU.wrappingRem bits (rd bits regs a) (rd bits regs b)).map (d, ·)
+  -- value-level (L2) models: the result is the canonical limb array of the returned number
+  | .gcd d a b =>
+      (Gcd.gcd bits (val (rd bits regs a)) (val (rd bits regs b))).map fun g => (d, toLimbs (nlimbs bits) g)
+  | .addmod d a b m => (ModularL.addMod bits (rd bits regs a) (rd bits regs b) (rd bits regs m)).map (d, ·)
+  | .mulmod d a b m => (ModularL.mulMod bits (rd bits regs a) (rd bits regs b) (rd bits regs m)).map (d, ·)
+  | .wpow d a e =>
+      some (d, toLimbs (nlimbs bits) (Pow.wrappingPow bits (val (rd bits regs a)) (val (rd bits regs e))))
+  | .npow2 d a => (Bits.checkedNextPowerOfTwo bits (rd bits regs a)).map (d, ·)
 
 def step (bits : Nat) (regs : Regs) (op : Op) : Regs :=
   match eval bits regs op with
